@@ -1047,9 +1047,6 @@ static bool canResend(ssl_t *ssl)
 
     if (ssl->flags & SSL_FLAGS_SERVER)
     {
-        if (ssl->hsState == SSL_HS_FINISHED)
-            canSend = 1;
-
         if (ssl->hsState == SSL_HS_CLIENT_HELLO)
         {
             canSend = 1; /* any handshake type */
@@ -1088,8 +1085,10 @@ static bool canResend(ssl_t *ssl)
     }
     else
     {
-#if 0
-        /* Client tests */
+        /* Client tests.  sslEncodeResponse builds the flight from hsState,
+           so a resend is only possible on a flight boundary: in the states
+           between SERVER_HELLO and FINISHED the server flight is still
+           arriving and there is no client flight to build */
         if (ssl->hsState == SSL_HS_SERVER_HELLO)
         {
             canSend = 1;
@@ -1105,9 +1104,6 @@ static bool canResend(ssl_t *ssl)
         {
             canSend = 1; /* Done is set on parse of peer FINISHED */
         }
-#else
-        canSend = 1;  /* Why wouldnt't it be safe to resend aways when in doubt */
-#endif
     }
     return canSend;
 }
